@@ -522,6 +522,18 @@ pub fn hostile_doc(rng: &mut Rng, env: &WorkerEnv) -> (String, Vec<u8>) {
             let mb = *rng.pick(&["é", "→", "😀", "ß", "Δ", "\u{0301}", "日本"]);
             let reps = 1 + rng.usize(400);
             let val = format!("{}{}", "a".repeat(pre), mb.repeat(reps));
+            if rng.chance(1, 3) {
+                // every ASCII prefix length 0..300 before the multi-byte run, one element each:
+                // whatever byte offset something cuts at, some element has a character across it
+                let dbg = if rng.chance(2, 3) { "<config debug=\"true\"/>" } else { "" };
+                let attr = *rng.pick(&["text", "data-k", "_", "id", "class"]);
+                let mut s = format!("<svg>{dbg}");
+                for p in 0..300 {
+                    s.push_str(&format!("<rect wh=\"1\" {attr}=\"{}{}\"/>", "a".repeat(p), mb.repeat(6)));
+                }
+                s.push_str("</svg>");
+                return ("multibyte-offsets".into(), s.into_bytes());
+            }
             let s = match rng.below(10) {
                 0 => format!("<svg><rect wh=\"3\" text=\"{val}\"/></svg>"),
                 1 => format!("<svg><rect id=\"{val}\" wh=\"3\"/><rect xy=\"#{val}|h\" wh=\"1\"/></svg>"),
@@ -583,6 +595,21 @@ pub fn hostile_doc(rng: &mut Rng, env: &WorkerEnv) -> (String, Vec<u8>) {
                         s.push_str(&format!("<rect wh=\"1\" data-k=\"{{{{{f}({a}, {b})}}}}\"/>"));
                     }
                 }
+            }
+            // and every built-in function with 0..4 arguments (numbers, an empty list)
+            const ALLFN: &[&str] = &[
+                "abs", "ceil", "floor", "fract", "sign", "divmod", "sqrt", "log", "exp", "pow", "sin", "cos", "tan", "asin", "acos", "atan",
+                "random", "randint", "min", "max", "sum", "product", "mean", "clamp", "mix", "eq", "ne", "lt", "le", "gt", "ge", "if", "not",
+                "and", "or", "xor", "swap", "r2p", "p2r", "select", "addv", "subv", "scalev", "head", "tail", "empty", "count", "in", "split",
+                "splitw", "trim", "join", "_",
+            ];
+            s.push_str("<var ev=\"{{tail(1)}}\"/>");
+            for f in ALLFN {
+                for n in 0..=4 {
+                    let args = vec!["1"; n].join(", ");
+                    s.push_str(&format!("<rect wh=\"1\" data-f=\"{{{{{f}({args})}}}}\"/>"));
+                }
+                s.push_str(&format!("<rect wh=\"1\" data-f=\"{{{{{f}($ev)}}}}\"/><rect wh=\"1\" data-f=\"{{{{{f}($ev, $ev)}}}}\"/>"));
             }
             s.push_str("</svg>");
             ("expr-pair-grid".into(), s.into_bytes())
